@@ -23,8 +23,12 @@ def generate(rng: random.Random, tier: str):
     for _ in range(600 if thorough else 110):
         n = rng.randint(1, 8 if thorough else 5)
         m = rng.randint(n, n + 2)
-        cases.append({'kind': 'norm', 'm': m, 'n': n, 'complex': rng.random() < 0.5, 'dtype': rng.choice(['32', '64', '64']),
-                      'scale_exp': rng.choice([-6, -3, -1, 0, 0, 1, 3, 6]), 'budget': rng.choice([1, 1, 2, 3, 5, 8, 20, 64]),
+        dt = rng.choice(['32', '64', '64'])
+        # start vectors from far below machine epsilon to large (squares stay representable in the dtype)
+        scales = [-15, -9, -6, -3, -1, 0, 0, 1, 3, 6, 12] if dt == '32' else [-100, -30, -18, -9, -6, -3, -1, 0, 0, 1, 3, 6, 30]
+        cplx = rng.random() < 0.5
+        cases.append({'kind': 'norm', 'm': m, 'n': n, 'complex': cplx, 'dtype': dt, 'real_start': cplx and rng.random() < 0.4,
+                      'scale_exp': rng.choice(scales), 'budget': rng.choice([1, 1, 2, 3, 5, 8, 20, 64]),
                       'tol': rng.choice(['default', 'zero', 'zero']), 'seed': rng.randrange(1 << 30)})
     for _ in range(150 if thorough else 40):
         cases.append({'kind': 'block', 'rows': rng.randint(1, 3), 'cols': rng.randint(1, 3), 'n': rng.randint(1, 3), 'aligned': rng.random() < 0.5,
@@ -47,22 +51,41 @@ def run_norm(case, drv):
     rng = random.Random(case['seed'])
     m, n, cplx = case['m'], case['n'], case['complex']
     A = full_rank_matrix(rng, m, n, cplx)
-    v0 = int_tensor(rng, (n,), complex_=cplx, lo=-3, hi=3).to(torch.complex128)
+    real_start = bool(case.get('real_start'))  # a real-valued start vector for a complex operator
+    v0 = int_tensor(rng, (n,), complex_=cplx and not real_start, lo=-3, hi=3).to(torch.complex128)
     if float(v0.abs().max()) == 0:
         v0[0] = 1
     scale = 10.0 ** case['scale_exp']
     dtype = {('32', False): torch.float32, ('64', False): torch.float64, ('32', True): torch.complex64, ('64', True): torch.complex128}[(case['dtype'], cplx)]
-    op = mrpro.operators.EinsumOp((A if cplx else A.real).to(dtype))
+    if real_start:
+        # EinsumOp refuses a real vector for a complex matrix (torch.einsum dtype check); a user-defined dense operator that promotes
+        # its input, like FastFourierOp or a complex mask do, is the operator the power iteration sees here
+        class Dense(mrpro.operators.LinearOperator):
+            def __init__(self, mat):
+                super().__init__()
+                self.mat = mat
+
+            def forward(self, x):
+                return (self.mat @ x.to(self.mat.dtype),)
+
+            def adjoint(self, y):
+                return (self.mat.mH @ y.to(self.mat.dtype),)
+
+        op = Dense(A.to(dtype))
+    else:
+        op = mrpro.operators.EinsumOp((A if cplx else A.real).to(dtype))
     tol = {} if case['tol'] == 'default' else {'relative_tolerance': 0.0, 'absolute_tolerance': 0.0}
     smax = float(torch.linalg.svdvals(A)[0])
     prec = 1e-4 if case['dtype'] == '32' else 1e-9
-    cfg = f'{m}x{n} {"complex" if cplx else "real"} float{case["dtype"]} scale 1e{case["scale_exp"]} budget {case["budget"]} tol {case["tol"]}'
+    cfg = f'{m}x{n} {"complex" if cplx else "real"}{" (real start vector)" if case.get("real_start") else ""} float{case["dtype"]} scale 1e{case["scale_exp"]} budget {case["budget"]} tol {case["tol"]}'
     viol = None
     corr = None
 
     def run_impl(start):
         cbs = []
-        st, val = call(lambda: op.operator_norm(start.to(dtype), dim=None, max_iterations=case['budget'], callback=lambda t: cbs.append(float(t)), **tol))
+        sdt = dtype.to_real() if real_start else dtype
+        st, val = call(lambda: op.operator_norm((start.real if real_start else start).to(sdt), dim=None, max_iterations=case['budget'],
+                                                callback=lambda t: cbs.append(float(t)), **tol))
         return st, val, cbs
 
     x0 = ((v0 if cplx else v0.real) * scale)
@@ -101,7 +124,7 @@ def run_norm(case, drv):
     if len(cbs) != len(mcb) and case['tol'] == 'zero':
         corr = corr or f'iterations: impl {len(cbs)} model {len(mcb)} with tolerances 0 ({cfg})'
     return Outcome(key=('norm', m, n, cplx, case['dtype'], case['scale_exp'], case['budget'], case['tol'], case['seed'] % 29), corr=corr, viol=viol,
-                   branches=[f'dtype:{case["dtype"]}', f'scale:1e{case["scale_exp"]}', f'budget:{case["budget"]}', f'tol:{case["tol"]}', f'iters:{min(len(cbs), 10)}'],
+                   branches=[f'dtype:{case["dtype"]}', f'scale:1e{case["scale_exp"]}', f'real_start:{bool(case.get("real_start"))}', f'budget:{case["budget"]}', f'tol:{case["tol"]}', f'iters:{min(len(cbs), 10)}'],
                    sample={**case, 'estimate': est, 'sigma_max': smax, 'callbacks': len(cbs)})
 
 
